@@ -9,6 +9,8 @@ mod conc;
 mod conc2;
 mod comp;
 mod admission;
+#[cfg(feature = "typed")]
+mod typed;
 
 use std::collections::HashMap;
 
